@@ -525,6 +525,11 @@ Proof.
   - apply IH. intros y Hy. apply H; right; auto.
 Qed.
 
+Lemma sl_chain_length lev' k l : length (sl_chain lev' k l) <= length l.
+Proof.
+  induction l as [|a l IH]; simpl; auto. destruct (k <? lev' a); simpl; lia.
+Qed.
+
 Definition sl_lvl_ok (s : slist D) (k : nat) (c : list nat) : Prop :=
   sl_seg (fun n => sl_NX s n k) (sl_HD s k) c None /\ sl_bwd (fun n => sl_PV s n k) None c.
 
@@ -614,11 +619,6 @@ Lemma sl_gt_same s y : sl_same s0 s -> sl_gt s0 d y -> sl_gt s d y.
 Proof. intros (A & _) (dy & E & H). exists dy. rewrite A. auto. Qed.
 Lemma sl_le_same s y : sl_same s0 s -> sl_le s0 d y -> sl_le s d y.
 Proof. intros (A & _) (dy & E & H). exists dy. rewrite A. auto. Qed.
-
-Lemma sl_chain_length lev' k l : length (sl_chain lev' k l) <= length l.
-Proof.
-  induction l as [|a l IH]; simpl; auto. destruct (k <? lev' a); simpl; lia.
-Qed.
 
 (* assembling the stage after the links of level i have been written *)
 Lemma sl_push_link_finish s s2 i left :
@@ -1127,5 +1127,307 @@ Proof.
   - exact TL1.
 Qed.
 
+
+
+(* ------------------------------------------------------------------------------------ *)
+(* the comparison callback: what the code needs is a total preorder given by the sign of cmp *)
+
+Section CMP.
+Hypothesis cmp_anti : forall a b, (cmp a b > 0 <-> cmp b a < 0)%Z.
+Hypothesis cmp_trans : forall a b c, (cmp a b <= 0 -> cmp b c <= 0 -> cmp a c <= 0)%Z.
+
+Lemma sl_cmp_eq_sym a b : (cmp a b = 0 -> cmp b a = 0)%Z.
+Proof. pose proof (cmp_anti a b). pose proof (cmp_anti b a). lia. Qed.
+
+Lemma sl_cmp_refl a : (cmp a a = 0)%Z.
+Proof. pose proof (cmp_anti a a). lia. Qed.
+
+(* d' <= n < v  ->  d' < v *)
+Lemma sl_cmp_L1 v n d' : (cmp v n > 0 -> cmp d' n <= 0 -> cmp v d' > 0)%Z.
+Proof.
+  intros H1 H2. destruct (Z_le_gt_dec (cmp v d') 0) as [H|H]; auto.
+  pose proof (cmp_trans v d' n H H2). lia.
+Qed.
+
+(* v < m <= d'  ->  v < d' *)
+Lemma sl_cmp_L2 v m d' : (cmp v m < 0 -> cmp m d' <= 0 -> cmp v d' < 0)%Z.
+Proof.
+  intros H1 H2. destruct (Z_lt_ge_dec (cmp v d') 0) as [H|H]; auto.
+  pose proof (cmp_anti v d'). pose proof (cmp_anti d' v).
+  assert (cmp d' v <= 0)%Z as Hdv by lia.
+  pose proof (cmp_trans m d' v H2 Hdv). pose proof (cmp_anti m v). lia.
+Qed.
+
+Fixpoint sl_sorted (l : list D) : Prop :=
+  match l with
+  | [] => True
+  | a :: t => (forall b, In b t -> (cmp a b <= 0)%Z) /\ sl_sorted t
+  end.
+
+Lemma sl_sorted_app_le l1 l2 a b : sl_sorted (l1 ++ l2) -> In a l1 -> In b l2 -> (cmp a b <= 0)%Z.
+Proof.
+  induction l1 as [|c l1 IH]; simpl; intros H Ha Hb; [tauto|]. destruct H as [H1 H2].
+  destruct Ha as [->|Ha]; [apply H1, in_or_app; auto|]. apply IH; auto.
+Qed.
+
+Lemma sl_sorted_app_r l1 l2 : sl_sorted (l1 ++ l2) -> sl_sorted l2.
+Proof. induction l1 as [|c l1 IH]; simpl; auto. intros [_ H]; auto. Qed.
+
+Lemma sl_sorted_remove l1 x l2 : sl_sorted (l1 ++ x :: l2) -> sl_sorted (l1 ++ l2).
+Proof.
+  induction l1 as [|c l1 IH]; simpl; intros H; [tauto|]. destruct H as [H1 H2].
+  split; auto. intros b Hb. apply H1. apply in_app_or in Hb. apply in_or_app.
+  destruct Hb; [left|right; right]; auto.
+Qed.
+
+Lemma sl_sorted_insert l1 x l2 :
+  sl_sorted (l1 ++ l2) -> (forall a, In a l1 -> (cmp a x <= 0)%Z) -> (forall b, In b l2 -> (cmp x b <= 0)%Z) ->
+  sl_sorted (l1 ++ x :: l2).
+Proof.
+  induction l1 as [|c l1 IH]; simpl; intros H Ha Hb.
+  - split; auto.
+  - destruct H as [H1 H2]. split.
+    + intros b Hin. apply in_app_or in Hin. destruct Hin as [Hin|[<-|Hin]].
+      * apply H1, in_or_app; auto.
+      * apply Ha; auto.
+      * apply H1, in_or_app; auto.
+    + apply IH; auto.
+Qed.
+
+(* where sl_spec_ins puts a new element *)
+Lemma sl_spec_ins_split (x : nat * D) (sp : list (nat * D)) :
+  sl_sorted (map snd sp) ->
+  exists Pl Sl, sp = Pl ++ Sl /\ sl_spec_ins cmp x sp = Pl ++ x :: Sl /\
+    (forall e, In e Pl -> (cmp (snd x) (snd e) > 0)%Z) /\
+    (forall e, In e Sl -> (cmp (snd x) (snd e) <= 0)%Z).
+Proof.
+  induction sp as [|y t IH]; intros HS.
+  - exists [], []. simpl. repeat split; auto; intros e [].
+  - simpl in HS. destruct HS as [H1 H2]. cbn [sl_spec_ins].
+    destruct (Z.gtb_spec (cmp (snd x) (snd y)) 0) as [Hgt|Hle].
+    + destruct (IH H2) as (Pl & Sl & E1 & E2 & HP & HSl).
+      exists (y :: Pl), Sl. rewrite E2, E1. repeat split; auto.
+      intros e [<-|He]; auto. lia.
+    + exists [], (y :: t). repeat split; auto; [intros e []|].
+      intros e [<-|He]; auto.
+      apply (cmp_trans _ (snd y)); auto. apply H1. apply in_map; auto.
+Qed.
+
+Lemma sl_spec_ins_sorted (x : nat * D) sp :
+  sl_sorted (map snd sp) -> sl_sorted (map snd (sl_spec_ins cmp x sp)).
+Proof.
+  intros HS. destruct (sl_spec_ins_split x sp HS) as (Pl & Sl & E1 & E2 & HP & HSl).
+  rewrite E2, map_app. cbn [map]. rewrite E1, map_app in HS. apply sl_sorted_insert; auto.
+  - intros a Ha. apply in_map_iff in Ha. destruct Ha as (e & <- & He).
+    specialize (HP e He). pose proof (cmp_anti (snd x) (snd e)). lia.
+  - intros b Hb. apply in_map_iff in Hb. destruct Hb as (e & <- & He). auto.
+Qed.
+
+(* ---- ordering of the level-0 chain in terms of the heap ---- *)
+Definition sl_leq (s : slist D) (y z : nat) : Prop :=
+  exists dy dz, sl_DATA s y = Some dy /\ sl_DATA s z = Some dz /\ (cmp dy dz <= 0)%Z.
+Definition sl_lt0 (s : slist D) (v : D) (y : nat) : Prop :=
+  exists dy, sl_DATA s y = Some dy /\ (cmp v dy < 0)%Z.
+Definition sl_eq0 (s : slist D) (v : D) (y : nat) : Prop :=
+  exists dy, sl_DATA s y = Some dy /\ (cmp v dy = 0)%Z.
+
+Definition sl_ordered (s : slist D) (ids : list nat) : Prop :=
+  (forall y, In y ids -> exists dy, sl_DATA s y = Some dy) /\
+  (forall A y B z, ids = A ++ y :: B -> In z B -> sl_leq s y z).
+
+Lemma sl_gt_before s v ids A n B y :
+  sl_ordered s ids -> ids = A ++ n :: B -> sl_gt s v n -> In y A -> sl_gt s v y.
+Proof.
+  intros [HD HO] E (dn & En & Hn) Hy.
+  apply in_split in Hy. destruct Hy as (A1 & A2 & ->).
+  rewrite <- app_assoc in E. cbn [app] in E.
+  destruct (HO A1 y (A2 ++ n :: B) n E) as (dy & dn' & Ey & En' & Hc).
+  { apply in_or_app. right. left. auto. }
+  rewrite En in En'. injection En' as <-.
+  exists dy. split; auto. eapply sl_cmp_L1; eauto.
+Qed.
+
+Lemma sl_lt_after s v ids A m B y :
+  sl_ordered s ids -> ids = A ++ m :: B -> sl_lt0 s v m -> In y B -> sl_lt0 s v y.
+Proof.
+  intros [HD HO] E (dm & Em & Hm) Hy.
+  destruct (HO A m B y E Hy) as (dm' & dy & Em' & Ey & Hc).
+  rewrite Em in Em'. injection Em' as <-.
+  exists dy. split; auto. eapply sl_cmp_L2; eauto.
+Qed.
+
+Lemma sl_filter_split {A} (f : A -> bool) (l : list A) c1 n c2 :
+  filter f l = c1 ++ n :: c2 ->
+  exists l1 l2, l = l1 ++ n :: l2 /\ c1 = filter f l1 /\ c2 = filter f l2.
+Proof.
+  revert c1; induction l as [|a l IH]; intros c1 H; simpl in H.
+  - destruct c1; discriminate.
+  - destruct (f a) eqn:Fa.
+    + destruct c1 as [|b c1]; simpl in H.
+      * injection H as -> H. exists [], l. simpl. auto.
+      * injection H as -> H. destruct (IH c1 H) as (l1 & l2 & -> & -> & ->).
+        exists (b :: l1), l2. simpl. rewrite Fa. auto.
+    + destruct (IH c1 H) as (l1 & l2 & -> & -> & ->).
+      exists (a :: l1), l2. simpl. rewrite Fa. auto.
+Qed.
+
+(* ---- ares_slist_node_find ---- *)
+Lemma sl_find_scan_ok s v k c2 : forall c1 n fuel,
+  sl_wf s -> sl_lvl_ok s k (c1 ++ n :: c2) ->
+  (forall y, In y (c1 ++ n :: c2) -> k < sl_LEV s y /\ exists dy, sl_DATA s y = Some dy) ->
+  length c2 < fuel ->
+  exists node rv, sl_find_scan cmp fuel s v k n = Ok (node, rv) /\
+    ( ((rv = 0)%Z /\ exists m, node = Some m /\ In m (n :: c2) /\ sl_eq0 s v m)
+    \/ ((rv < 0)%Z /\ exists c2a m c2b, n :: c2 = c2a ++ m :: c2b /\
+           (forall y, In y c2a -> sl_gt s v y) /\ sl_lt0 s v m /\ node = sl_last (c1 ++ c2a))
+    \/ ((rv > 0)%Z /\ node = None /\ forall y, In y (n :: c2) -> sl_gt s v y) ).
+Proof.
+  induction c2 as [|m c2 IH]; intros c1 n fuel W [Hs Hb] HL Hf;
+    (destruct fuel as [|f]; [simpl in Hf; lia|]); cbn [sl_find_scan];
+    destruct (HL n) as (Hkn & dn & En); try (apply in_or_app; right; left; auto);
+    rewrite (sl_node_data_ok _ _ _ En); cbn [bind];
+    destruct (Z.ltb_spec (cmp v dn) 0) as [Hlt|Hge].
+  - rewrite sl_get_prev_ok by auto. cbn [bind]. rewrite (sl_bwd_prev _ _ _ _ Hb).
+    do 2 eexists. split; [reflexivity|]. right. left. split; auto.
+    exists [], n, []. rewrite app_nil_r. repeat split; auto; [intros y []|]. exists dn; split; auto; lia.
+  - destruct (Z.gtb_spec (cmp v dn) 0) as [Hgt|Hle].
+    + rewrite sl_get_next_ok by auto. cbn [bind]. rewrite (sl_seg_next _ _ _ _ _ Hs). cbn [hd_error].
+      do 2 eexists. split; [reflexivity|]. right. right. repeat split; auto; try lia.
+      intros y [<-|[]]. exists dn; split; auto; lia.
+    + do 2 eexists. split; [reflexivity|]. left. split; [lia|].
+      exists n. repeat split; auto; [left; auto|]. exists dn. split; auto. lia.
+  - rewrite sl_get_prev_ok by auto. cbn [bind]. rewrite (sl_bwd_prev _ _ _ _ Hb).
+    do 2 eexists. split; [reflexivity|]. right. left. split; auto.
+    exists [], n, (m :: c2). rewrite app_nil_r. repeat split; auto; [intros y []|]. exists dn; split; auto; lia.
+  - destruct (Z.gtb_spec (cmp v dn) 0) as [Hgt|Hle].
+    + rewrite sl_get_next_ok by auto. cbn [bind]. rewrite (sl_seg_next _ _ _ _ _ Hs). cbn [hd_error].
+      destruct (IH (c1 ++ [n]) m f W) as (node & rv & E & HR).
+      * rewrite <- app_assoc. split; auto.
+      * intros y Hy. apply HL. rewrite <- app_assoc in Hy. exact Hy.
+      * simpl in Hf. lia.
+      * exists node, rv. split; [exact E|].
+        assert (Gn : sl_gt s v n) by (exists dn; split; auto; lia).
+        destruct HR as [(R0 & m' & -> & Hm' & He)|[(R0 & c2a & m' & c2b & Ec & Hg & Hl & ->)|(R0 & -> & Hg)]].
+        -- left. split; auto. exists m'. repeat split; auto. right; auto.
+        -- right. left. split; auto. exists (n :: c2a), m', c2b. repeat split; auto.
+           ++ cbn [app]. rewrite Ec. reflexivity.
+           ++ intros y [<-|Hy]; auto.
+           ++ rewrite <- app_assoc. reflexivity.
+        -- right. right. repeat split; auto. intros y [<-|Hy]; auto.
+    + do 2 eexists. split; [reflexivity|]. left. split; [lia|].
+      exists n. repeat split; auto; [left; auto|]. exists dn. split; auto. lia.
+Qed.
+
+Section FIND.
+Variables (s : slist D) (v : D) (ids : list nat) (fuel : nat).
+Hypothesis RP : sl_rep s ids.
+Hypothesis OR : sl_ordered s ids.
+Hypothesis FU : length ids < fuel.
+
+Lemma sl_not_eq0_gt y : sl_gt s v y -> ~ sl_eq0 s v y.
+Proof. intros (d1 & E1 & H1) (d2 & E2 & H2). rewrite E1 in E2. injection E2 as <-. lia. Qed.
+Lemma sl_not_eq0_lt y : sl_lt0 s v y -> ~ sl_eq0 s v y.
+Proof. intros (d1 & E1 & H1) (d2 & E2 & H2). rewrite E1 in E2. injection E2 as <-. lia. Qed.
+
+Definition sl_find_inv (i : nat) (node : option nat) : Prop :=
+  match node with
+  | None => True
+  | Some n => In n ids /\ i <= sl_LEV s n /\ sl_gt s v n
+  end.
+
+Lemma sl_find_levels_ok : forall i node rv,
+  i <= sl_levels s -> rv <> 0%Z -> sl_find_inv i node ->
+  (i = 0 -> forall y, In y ids -> ~ sl_eq0 s v y) ->
+  exists node' rv', sl_find_levels cmp fuel s v i node rv = Ok (node', rv') /\
+    ( ((rv' = 0)%Z /\ exists m, node' = Some m /\ In m ids /\ sl_eq0 s v m)
+    \/ (rv' <> 0%Z /\ forall y, In y ids -> ~ sl_eq0 s v y) ).
+Proof.
+  destruct RP as (W & ND & LV & LK & TL). destruct OR as [ODat OLe].
+  induction i as [|i IH]; intros node rv Hi Hrv Hinv Habs.
+  - exists node, rv. split; auto.
+  - cbn [sl_find_levels].
+    set (c := sl_chain (sl_LEV s) i ids).
+    assert (Hok : sl_lvl_ok s i c) by (apply LK; lia).
+    assert (HLc : forall y, In y c -> i < sl_LEV s y /\ exists dy, sl_DATA s y = Some dy).
+    { intros y Hy. apply sl_chain_in in Hy. destruct Hy. split; auto. }
+    assert (HDi : sl_HD s i = hd_error c).
+    { destruct Hok as [Hs _]. apply sl_seg_start in Hs. rewrite Hs. destruct c; auto. }
+    (* node1 and its position in the chain, everything before it is smaller than v *)
+    match goal with |- context [bind ?mm _] =>
+      assert (N1 : exists node1, mm = Ok node1 /\
+        match node1 with
+        | None => node = None /\ c = []
+        | Some n => exists c1 c2, c = c1 ++ n :: c2 /\ (forall y, In y c1 -> sl_gt s v y) /\
+                                  (node = None -> c1 = []) /\ (node <> None -> sl_gt s v n)
+        end) end.
+    { destruct node as [n|].
+      - exists (Some n). split; auto. destruct Hinv as (Hn & Hl & Hg).
+        assert (In n c) as Hc by (apply sl_chain_in; split; auto; lia).
+        destruct (in_split _ _ Hc) as (c1 & c2 & Ec). exists c1, c2. repeat split; auto; [|congruence].
+        intros y Hy. unfold c, sl_chain in Ec. apply sl_filter_split in Ec.
+        destruct Ec as (l1 & l2 & Ei & -> & ->).
+        apply (sl_gt_before s v ids l1 n l2); auto.
+        apply filter_In in Hy. tauto.
+      - rewrite sl_get_head_ok by (auto; lia). exists (sl_HD s i). split; auto.
+        rewrite HDi. destruct c as [|n c']; cbn [hd_error]; auto.
+        exists [], c'. repeat split; auto; [intros y []|congruence]. }
+    destruct N1 as (node1 & -> & N1). cbn [bind].
+    destruct node1 as [n|].
+    + destruct N1 as (c1 & c2 & Ec & Hc1 & Hnone & Hsome).
+      destruct (sl_find_scan_ok s v i c2 c1 n fuel W) as (node2 & rv2 & E & HR).
+      * rewrite <- Ec. exact Hok.
+      * intros y Hy. apply HLc. rewrite Ec. exact Hy.
+      * assert (length c <= length ids) by apply sl_chain_length.
+        rewrite Ec, app_length in H. simpl in H. lia.
+      * rewrite E. cbn [bind fst snd].
+        unfold c, sl_chain in Ec. pose proof Ec as Ec'. apply sl_filter_split in Ec'.
+        destruct Ec' as (l1 & l2 & Ei & E1 & E2).
+        destruct HR as [(R0 & m' & -> & Hm' & He)|[(R0 & c2a & m' & c2b & Ec2 & Hg & Hl & ->)|(R0 & -> & Hg)]].
+        -- subst rv2. cbn [Z.eqb]. do 2 eexists. split; [reflexivity|]. left. split; auto.
+           exists m'. repeat split; auto.
+           assert (In m' c) as Hc by (unfold c, sl_chain; rewrite Ec; apply in_or_app; right; auto).
+           apply sl_chain_in in Hc. tauto.
+        -- destruct (Z.eqb_spec rv2 0); [lia|].
+           (* everything in the chain before m' is smaller than v, m' is larger *)
+           assert (Hall : forall y, In y (c1 ++ c2a) -> sl_gt s v y).
+           { intros y Hy. apply in_app_or in Hy. destruct Hy; auto. }
+           apply IH; auto; try lia.
+           ++ destruct (sl_last (c1 ++ c2a)) as [p|] eqn:EL; cbn; auto.
+              apply sl_last_some in EL. destruct EL as (c' & EL).
+              assert (In p (c1 ++ c2a)) as Hp by (rewrite EL; apply in_or_app; right; left; auto).
+              assert (In p c) as Hpc.
+              { unfold c, sl_chain. rewrite Ec. rewrite Ec2.
+                apply in_app_or in Hp. apply in_or_app. destruct Hp; auto.
+                right. apply in_or_app. auto. }
+              apply sl_chain_in in Hpc. destruct Hpc. repeat split; auto. lia.
+           ++ intros -> y Hy.
+              assert (Ec0 : ids = c1 ++ c2a ++ m' :: c2b).
+              { rewrite <- Ec2. unfold c in *.
+                rewrite <- Ec. symmetry. apply sl_chain_0. exact LV. }
+              rewrite Ec0 in Hy. apply in_app_or in Hy. destruct Hy as [Hy|Hy].
+              { apply sl_not_eq0_gt. apply Hall, in_or_app; auto. }
+              apply in_app_or in Hy. destruct Hy as [Hy|[<-|Hy]].
+              { apply sl_not_eq0_gt. apply Hall, in_or_app; auto. }
+              { apply sl_not_eq0_lt; auto. }
+              apply sl_not_eq0_lt. rewrite app_assoc in Ec0.
+              apply (sl_lt_after s v ids (c1 ++ c2a) m' c2b); auto.
+        -- destruct (Z.eqb_spec rv2 0); [lia|].
+           apply IH; auto; try lia; [cbn; auto|].
+           intros -> y Hy.
+           assert (Ec0 : ids = c1 ++ n :: c2).
+           { unfold c in *. rewrite <- Ec. symmetry. apply sl_chain_0. exact LV. }
+           rewrite Ec0 in Hy. apply in_app_or in Hy. destruct Hy as [Hy|Hy].
+           { apply sl_not_eq0_gt. auto. }
+           apply sl_not_eq0_gt. auto.
+    + destruct N1 as [-> Ec]. apply IH; auto; try lia.
+      intros -> y Hy.
+      assert (Ec0 : ids = []).
+      { unfold c in *. rewrite <- Ec. symmetry. apply sl_chain_0. exact LV. }
+      rewrite Ec0 in Hy. destruct Hy.
+Qed.
+
+End FIND.
+
+End CMP.
 
 End SLP.
